@@ -160,6 +160,55 @@ def case_ladder(case):
             "obs": {"resolved_modes": nres, "mode_pairs_judged": judged, "worst_err_over_relthick": round(worst_c, 2), "min_ratio": None if not np.isfinite(min_ratio) else round(min_ratio, 2)}}
 
 
+def field_cases(tier):
+    fams = ("loglin", "power")
+    halos = (13.0, None) if tier == "quick" else (13.0, None, 30.0, 60.0)
+    ns = (16, 64, 256) if tier == "quick" else (16, 64, 256, 1024)
+    for fam, h, fp, order in itertools.product(fams, halos, (False, True), ("ascending", "descending")):
+        yield {"family": fam, "halo": h, "footprint": fp, "order": order, "ns": ns}
+
+
+def case_field_ladder(case):
+    """The same convergence claim observed on the RETURNED FIELDS with a zero-flux halo (the cropped output has no
+    FFT of its own): reference field = Riccati transfer functions assembled through the harness' DFT restatement of
+    pad / truncate / shift / crop.  Mode count (4,4) keeps only components the coarsest grid resolves; output heights
+    are requested ascending or descending."""
+    from vf.oracles import halfspace
+
+    S0 = sl.solver()
+    nx, ny, dom = 8, 6, (200.0, 150.0)
+    dx, dy = dom[0] / nx, dom[1] / ny
+    halo = case["halo"]
+    funcs = family(case["family"], "oblique")
+    z0, zt = 0.5, 20.0
+    fp = case["footprint"]
+    q = sl.impulse(ny, nx, 2, 3)
+    mp = (5 * dx, 1 * dy) if fp else (0.0, 0.0)
+    modes = (4, 4)
+    errs, hs = [], []
+    from scipy.integrate import quad
+
+    for n in case["ns"]:
+        z = np.linspace(z0, zt, n + 1)
+        prof = tuple(np.asarray(f(z), dtype=float) + 0.0 * z for f in funcs)
+        lv = [n // 2, n] if case["order"] == "ascending" else [n, n // 2]
+        _, c, f = S0(q, z, prof, dom, lv, modes=modes, halo=halo, precision="double", footprint=fp, meas_pt=mp)
+        tr = lambda kx, ky: riccati.transfer(funcs, z0, zt, z[lv], kx, ky)  # noqa
+        res = [quad(lambda t: 1.0 / float(funcs[4](t)), z0, zz, epsabs=1e-13, epsrel=1e-12)[0] for zz in z[lv]]
+        cw, fw = halfspace.solve(q, dom, z[lv] - z0, None, modes, halo, meas_pt=mp, footprint=fp, transfer=tr, mean_resistance=res)
+        e = max(sl.relerr(f, fw, np.abs(fw).max()), sl.relerr(c - c.mean(axis=(1, 2), keepdims=True), cw - cw.mean(axis=(1, 2), keepdims=True), np.abs(cw - cw.mean(axis=(1, 2), keepdims=True)).max()))
+        errs.append(e)
+        hs.append(1.0 / n)
+    v = []
+    lab = core.canon(case)
+    for k, n in enumerate(case["ns"]):
+        if not errs[k] <= 16.0 * hs[k]:
+            v.append({"sub": "field-bound", "sig": "field-bound", "msg": "n=%d: field error %.3e is %.1f x the relative layer thickness (allowed 16 x); case %s" % (n, errs[k], errs[k] / hs[k], lab)})
+        if k + 1 < len(errs) and errs[k + 1] > max(errs[k] / 2.5, 0.05 * hs[k + 1]) and errs[k + 1] >= 1e-9:
+            v.append({"sub": "field-ratio", "sig": "field-ratio", "msg": "n=%d -> %d: field error %.3e -> %.3e shrinks only %.2f x (required 2.5 x); case %s" % (n, case["ns"][k + 1], errs[k], errs[k + 1], errs[k] / errs[k + 1], lab)})
+    return {"v": v[:3], "nt": True, "n": len(case["ns"]), "obs": {"errors": ["%.3e" % e for e in errs]}}
+
+
 def run(ctx):
     core.warm_numba()
     ctx.rule = (
@@ -168,6 +217,7 @@ def run(ctx):
     )
     ctx.assumptions += ["reference: scipy DOP853 rtol=1e-11 on the Riccati form; decaying constant-coefficient continuation above the top node"]
     res = ctx.run_cases(case_ladder, cases(ctx.tier), sub="ladder", chunksize=1)
+    ctx.run_cases(case_field_ladder, field_cases(ctx.tier), sub="field-ladder-with-halo", chunksize=1)
     ctx.cov["mode_pairs_judged"] = int(sum(r.get("obs", {}).get("mode_pairs_judged", 0) for r in res))
     ctx.cov["worst_err_over_relthick"] = max([r.get("obs", {}).get("worst_err_over_relthick", 0) for r in res] + [0])
     mr = [r["obs"]["min_ratio"] for r in res if r.get("obs", {}).get("min_ratio") is not None]
